@@ -493,6 +493,20 @@ func main() {
 					run: tlsExporterVsCollector(func(p *pki) *certs.Pair { return p.srvTrusted }, "", caSet, ck.f, wantDelivery, wantDelivery, false)})
 			}
 		}
+		// ServerName given as an IP literal: it must be honoured like a DNS name (crypto/tls never sends an
+		// IP literal as SNI, so code that takes the expected name from the connection state loses it)
+		dialIP := "127.0.0.1"
+		if v6 {
+			dialIP = "::1"
+		}
+		cells = append(cells, cell{name: "tls server=trusted servername=<IP literal of the dialled address>", v6: v6,
+			run: tlsExporterVsCollector(func(p *pki) *certs.Pair { return p.srvTrusted }, dialIP, false, nil, true, true, true)})
+		cells = append(cells, cell{name: "tls server=trusted servername=<other IP literal 10.9.9.9>", v6: v6, neg: true,
+			run: tlsExporterVsCollector(func(p *pki) *certs.Pair { return p.srvTrusted }, "10.9.9.9", false, nil, false, false, true)})
+		cells = append(cells, cell{name: "tls server=certificate for 10.9.9.9/other.test servername=10.9.9.9 (dialled by another address)", v6: v6,
+			run: tlsExporterVsCollector(func(p *pki) *certs.Pair { return p.srvWrongSAN }, "10.9.9.9", false, nil, true, true, true)})
+		cells = append(cells, cell{name: "tls server=certificate for 10.9.9.9/other.test servername=other.test", v6: v6,
+			run: tlsExporterVsCollector(func(p *pki) *certs.Pair { return p.srvWrongSAN }, "other.test", false, nil, true, true, true)})
 		for _, bundle := range []bool{false, true} {
 			for _, ck := range []struct {
 				name string
